@@ -91,6 +91,13 @@ def check_lossless(w, GP, s, desc):
     w.check(cond, "lossless-concatenation", "%s: %d lines, consumed %d of %d" % (desc, nlines, total, slen(s)))
     if nlines >= 2:
         w.cover("multi-line")
+    # the same parser instance is handed a new text afterwards: it must start at its beginning
+    try:
+        p.parse("G1 X1 ; next\n")
+        ok2 = s_eq(w, p.fullText, "G1 X1 ; next\n")
+    except AssertionError as ex:
+        ok2 = False
+    w.check(ok2, "parser-reuse-with-new-source", "%s then parse('G1 X1 ; next\\n') on the same instance" % desc)
     return nlines
 
 
@@ -122,7 +129,7 @@ def check_normalisation(w, GP, line_text, desc, with_checksum=True):
         w.cover("line-with-parameters-or-subcode")
     if KF_LEADING_WS in w.excluded and len(p.leadingWhitespace) > 0:
         return      # known finding: checksum of a rendered line ignores its leading blanks
-    p.lineNumber = 5
+    p.lineNumber = [5, 0][w.choose(2, "lineno")]
     rendered = p.stringify()     # what str(p) returns
     r = GP().parse(rendered)
     try:
